@@ -4,6 +4,7 @@ prints a KNOWN-FINDING line for each one that still reproduces. Nothing is writt
 import json
 import os
 import random
+import re
 
 import interp
 import oracles_exec as ox
@@ -80,7 +81,17 @@ def det_varies(f):
     return len(outs) > 1
 
 
-DETECTORS = {"rerun_changes": det_rerun_changes, "varies": det_varies, "false_claim": det_false_claim, "hang": det_hang, "lint_count": det_lint_count,
+def det_rename_moves(f):
+    """a label renaming (same length, so no offset moves) changes where an item of the witness (several
+    files) is reported"""
+    files = [tuple(x) for x in f["files"]]
+    ren = [(n, re.sub(r"\b%s\b" % re.escape(f["from"]), f["to"], t)) for n, t in files]
+    a, b = run_lines_isolated(RVH_DEBUG, [pipe_req("run", files), pipe_req("run", ren)])
+    loc = lambda blk: sorted(re.search(r" at=(\S+)", l).group(1) for l in blk if l.startswith("RUN ") and " at=" in l)
+    return bool(loc(a)) and loc(a) != loc(b)
+
+
+DETECTORS = {"rename_moves": det_rename_moves, "rerun_changes": det_rerun_changes, "varies": det_varies, "false_claim": det_false_claim, "hang": det_hang, "lint_count": det_lint_count,
              "cfgerr": det_cfgerr, "rerun_changes_udef": det_rerun_changes_udef}
 
 
